@@ -229,15 +229,17 @@ def wl_flags(case):
     return out
 
 
-def build(kind, conn0, bs, wl, tymth=None):
-    """Returns (connection object, fake socket, who-bytes used in wire log records)."""
+def build(kind, conn0, bs, wl, tymth=None, bufs=None):
+    """Returns (connection object, fake socket, who-bytes used in wire log records).
+    bufs = (txbs, rxbs) bytearrays supplied by the owner of a client (None = let the client make its own)."""
     from hio.core.tcp import clienting, serving
     if is_client(kind):
         sock = FakeSock(False, HA, CA)
+        kw = {} if bufs is None else {"txbs": bufs[0], "rxbs": bufs[1]}
         if kind == "client":
-            c = clienting.Client(ha=HA, bs=bs, wl=wl, tymth=tymth)
+            c = clienting.Client(ha=HA, bs=bs, wl=wl, tymth=tymth, **kw)
         else:
-            c = clienting.ClientTls(context=FakeCtx(), ha=HA, bs=bs, wl=wl, tymth=tymth)
+            c = clienting.ClientTls(context=FakeCtx(), ha=HA, bs=bs, wl=wl, tymth=tymth, **kw)
             sock.tls = True
         c.cs = sock
         if conn0:
@@ -278,8 +280,13 @@ def run_impl(case):
     tymist = tyming.Tymist()
     records = []
     wl = make_wl(case["wl"], records)
-    c, sock, who = build(case["kind"], case["conn0"], case["bs"], wl, tymth=tymist.tymen())
     client = is_client(case["kind"])
+    bufs = None
+    if case.get("bufs") and client:       # the owner hands its own buffers to the client (empty or preloaded txbs, empty rxbs)
+        bufs = (bytearray(bytes.fromhex(case["bufs"]["txpre"])), bytearray())
+    c, sock, who = build(case["kind"], case["conn0"], case["bs"], wl, tymth=tymist.tymen(), bufs=bufs)
+    otx, orx = (bufs if bufs is not None else (c.txbs, c.rxbs))     # the buffers as the owner sees them
+    ident = [c.txbs is otx, c.rxbs is orx]
     snaps, taken = [], bytearray()
     for op in case["ops"]:
         sock.sends, sock.recvs, sock.calls = [], [], 0
@@ -289,6 +296,8 @@ def run_impl(case):
             k = op[0]
             if k == "tx":
                 c.tx(bytes.fromhex(op[1]))
+            elif k == "txo":            # the owner queues directly on the buffer it supplied
+                otx.extend(bytes.fromhex(op[1]))
             elif k == "sends":
                 sock.sends = [op[1]]
                 c.serviceSends()
@@ -306,8 +315,11 @@ def run_impl(case):
                     c.serviceReceives()
                     c.serviceSends()
             elif k == "take":
-                taken.extend(c.rxbs)
-                c.clearRxbs()
+                taken.extend(orx)
+                if bufs is not None:
+                    del orx[:]          # the owner consumes from its own buffer
+                else:
+                    c.clearRxbs()
             elif k == "connect":
                 if client:
                     sock.connect_result = 0
@@ -327,14 +339,14 @@ def run_impl(case):
             res = ["exc", exn_kind(ex)]
         if c.cs is not sock:
             raise AssertionError("connection replaced its socket")
-        snaps.append({"res": res, "calls": sock.calls, "tx": len(c.txbs), "rx": len(c.rxbs), "cut": bool(c.cutoff),
+        snaps.append({"res": res, "calls": sock.calls, "tx": len(otx), "rx": len(orx), "cut": bool(c.cutoff),
                       "ks": len(sock.accepted), "kr": len(sock.delivered), "nrec": len(records)})
     if sock.misuse:
         raise AssertionError("fake socket misuse: %s" % sock.misuse)
     obs = {"snaps": snaps,
            "connected": bool(c.connected) if client else True,
            "cutoff": bool(c.cutoff),
-           "txbs": bytes(c.txbs).hex(), "rxbs": bytes(c.rxbs).hex(),
+           "txbs": bytes(otx).hex(), "rxbs": bytes(orx).hex(), "ident": ident,
            "ksent": bytes(sock.accepted).hex(), "krecvd": bytes(sock.delivered).hex(),
            "taken": bytes(taken).hex(),
            "wlog": parse_records(case["wl"], records, who)}
@@ -346,12 +358,18 @@ def run_impl(case):
     return obs
 
 
+def preload(case):
+    return bytes.fromhex(case["bufs"]["txpre"]) if case.get("bufs") and is_client(case["kind"]) else b""
+
+
 def all_tx(case):
-    return b"".join(bytes.fromhex(op[1]) for op in case["ops"] if op[0] == "tx")
+    return preload(case) + b"".join(bytes.fromhex(op[1]) for op in case["ops"] if op[0] in ("tx", "txo"))
 
 
 def oracle(case, obs):
     H = bytes.fromhex
+    if not all(obs.get("ident", [True])):
+        return "the client does not use the txbs/rxbs buffers its owner supplied (the stream below is judged on the owner's buffers)"
     queued = all_tx(case)
     ksent, txbs = H(obs["ksent"]), H(obs["txbs"])
     if not queued.startswith(ksent):
@@ -385,9 +403,9 @@ def oracle(case, obs):
         if spec["rxed"] and H(obs["readRx"]) != krecvd:
             return "WireLog.readRx() != bytes actually received"
     # progress: an attempted send that the kernel answers with n >= 1 shrinks txbs by min(n, len)
-    prev = 0
+    prev = len(preload(case))
     for op, sn in zip(case["ops"], obs["snaps"]):
-        if op[0] == "tx":
+        if op[0] in ("tx", "txo"):
             prev += len(H(op[1]))
             if sn["tx"] != prev:
                 return "tx did not append exactly its payload"
@@ -467,7 +485,7 @@ def _rres(a):
 
 def _op(op):
     k = op[0]
-    if k == "tx":
+    if k in ("tx", "txo"):
         return f"(Stream.Tx {coq_bytes(bytes.fromhex(op[1]))})"
     if k == "sends":
         return f"(Stream.SvcSends {_sres(op[1])})"
@@ -508,13 +526,18 @@ def _rec(r):
 
 def to_coq(case, obs):
     H = bytes.fromhex
+    pre_op, pre_snap = [], []
+    if case.get("bufs") and is_client(case["kind"]):      # a preloaded supplied txbs = a tx before anything else
+        pre = preload(case)
+        pre_op = [f"(Stream.Tx {coq_bytes(pre)})"]
+        pre_snap = [_snap({"res": ["ok", None], "calls": 0, "tx": len(pre), "rx": 0, "cut": False})]
     return ("{| Stream.c_cfg := %s; Stream.c_conn0 := %s; Stream.c_ops := %s; Stream.c_snaps := %s; "
             "Stream.c_connected := %s; Stream.c_cutoff := %s; Stream.c_txbs := %s; Stream.c_rxbs := %s; "
             "Stream.c_ksent := %s; Stream.c_krecvd := %s; Stream.c_taken := %s; Stream.c_wlog := %s |}" % (
                 coq_cfg(case), coq_bool(case["conn0"]),
-                coq_list([_op(o) if o[0] != "wl" else "(Stream.WlSet %s %s)" % (coq_bool(f[0]), coq_bool(f[1]))
-                          for o, f in zip(case["ops"], wl_flags(case)[1:])], "Stream.op"),
-                coq_list([_snap(s) for s in obs["snaps"]], "Stream.snap"),
+                coq_list(pre_op + [_op(o) if o[0] != "wl" else "(Stream.WlSet %s %s)" % (coq_bool(f[0]), coq_bool(f[1]))
+                                   for o, f in zip(case["ops"], wl_flags(case)[1:])], "Stream.op"),
+                coq_list(pre_snap + [_snap(s) for s in obs["snaps"]], "Stream.snap"),
                 coq_bool(obs["connected"] if is_client(case["kind"]) else case["conn0"]), coq_bool(obs["cutoff"]),
                 coq_bytes(H(obs["txbs"])), coq_bytes(H(obs["rxbs"])), coq_bytes(H(obs["ksent"])),
                 coq_bytes(H(obs["krecvd"])), coq_bytes(H(obs["taken"])),
@@ -588,6 +611,13 @@ def directed():
             ["tx", p1], ["sends", ["acc", 4]], ["recvs", [["data", "0102"], ["data", "0304", "dead"], blk]],
             ["sends", ["acc", 2]], ["once", ["data", "05"]], ["recvs", [["data", "06"], fault_ans(kind, errno.ECONNRESET)]],
             ["sends", ["acc", 2]]]})
+        # the owner supplies its own (empty / preloaded) txbs and rxbs, queues on them directly and reads from them
+        if is_client(kind):
+            for pre in ("", "0102030405"):
+                out.append({"kind": kind, "conn0": True, "bs": 16, "wl": WL1, "bufs": {"txpre": pre}, "drain": True, "ops": [
+                    ["sends", ["acc", 2]], ["txo", "a1a2a3"], ["sends", ["acc", 2]], ["tx", "b1b2"], ["txo", "c1"],
+                    ["recvs", [["data", "0a0b0c"], blk]], ["sends", blk], ["sends", ["acc", 3]], ["take"],
+                    ["once", ["data", "0d"]], ["txo", "d1d2"]] + [["sends", ["acc", 1]]] * 12})
         # the attached WireLog is reconfigured / closed while the connection lives
         for mode, seq in ((1, [{"rxed": False}, {"txed": False}, {"rxed": True, "txed": True}]),
                           (2, [{"txed": False}, {"samed": False, "rxed": False}, {"samed": True, "rxed": True, "txed": True}]),
@@ -679,8 +709,11 @@ def gen_case(rng, tier):
         else:
             ops.append(["connect"])
     case = {"kind": kind, "conn0": conn0, "bs": bs, "wl": spec, "ops": ops}
+    if is_client(kind) and rng.random() < 0.4:
+        case["bufs"] = {"txpre": rng.choice(["", "", "", hx(rng, rng.randint(1, 10))])}
+        case["ops"] = ops = [["txo", o[1]] if o[0] == "tx" and rng.random() < 0.5 else o for o in ops]
     if not faulty and rng.random() < 0.3:
-        total = sum(len(o[1]) // 2 for o in ops if o[0] == "tx")
+        total = sum(len(o[1]) // 2 for o in ops if o[0] in ("tx", "txo")) + len(preload(case))
         if total <= 120:
             case["ops"] = ops + [["connect"]] + [["sends", ["acc", rng.randint(1, 4)]] for _ in range(total)]
             case["drain"] = True
@@ -693,7 +726,7 @@ def generate(rng, tier):
 
 
 def nontrivial(case, obs):
-    ntx = sum(1 for o in case["ops"] if o[0] == "tx")
+    ntx = sum(1 for o in case["ops"] if o[0] in ("tx", "txo"))
     partial = False
     prev = 0
     for op, sn in zip(case["ops"], obs["snaps"]):
